@@ -79,7 +79,7 @@ Example C12_history_nonvacuous :
   snd (hrun 2 (minit, fun _ => LNone) xs) 0%nat = LStub 2 /\ snd (hrun 2 (minit, fun _ => LNone) xs) 1%nat = LNone.
 Proof.
   split; [|split; vm_compute; reflexivity].
-  cbn. repeat (split; [first [exact I | lia | (eexists; eexists; repeat split; reflexivity)]|]). exact I.
+  apply disciplinedb_sound. vm_compute. reflexivity.
 Qed.
 
 (* the model has ONE kind of mocker; goom has five (function, method, unexported function, unexported method, interface
